@@ -646,6 +646,11 @@ pub(crate) async fn do_commit_detached_transaction(
         };
 
         manifest.version = random_version;
+        if matches!(transaction.operation, Operation::Restore { .. }) {
+            // Row ids handed out after a restore must stay unique over the whole history, not
+            // only with respect to the restored version: never move the counter backwards.
+            manifest.next_row_id = manifest.next_row_id.max(dataset.manifest.next_row_id);
+        }
 
         // recompute_stats is always false so far because detached manifests are newer than
         // the old stats bug.
@@ -835,6 +840,11 @@ pub(crate) async fn commit_transaction(
         };
 
         manifest.version = target_version;
+        if matches!(transaction.operation, Operation::Restore { .. }) {
+            // Row ids handed out after a restore must stay unique over the whole history, not
+            // only with respect to the restored version: never move the counter backwards.
+            manifest.next_row_id = manifest.next_row_id.max(dataset.manifest.next_row_id);
+        }
 
         let previous_writer_version = &dataset.manifest.writer_version;
         // The versions of Lance prior to when we started writing the writer version
